@@ -3,7 +3,7 @@ ID = 'C18'
 RULE = ('one case = a fresh KeyspaceGroup<MemStore> and k in 2..8 tasks that concurrently call get_or_create_keyspace on a fresh name and then send one Set through the mailbox they received; '
         'on a current_thread runtime each task is delayed by a schedule-chosen number of yield_now before and between its steps (deterministic, replayable from the seed), on 2- and 8-worker runtimes '
         'the scheduler interleaves; afterwards a fresh get_or_create_keyspace + Serialize must contain every acknowledged id (and storage holds them all). quick: all delay bounds 0..3 x k x 40 seeds; '
-        'thorough: 20 000 seeds. The model outcome is schedule-independent by theorem one_state; non-trivial = k >= 2 (every case); distinct by hash')
+        'thorough: 20 000 seeds. Plus start-up races on a real node: a replicated write arriving while the store extension is still loading the persisted keyspaces must be refused or end up in the state peers obtain. The model outcome is schedule-independent by theorem one_state; non-trivial = k >= 2 (every case); distinct by hash')
 ASSUMPTIONS = ['parking_lot RwLock and the puppet mailbox behave as locks / FIFO channels (runtime facts; the interleavings are produced by the real runtime, the theorem covers all of them)']
 TRUSTED_BASE = ['correspondence: dcharness (real KeyspaceGroup::get_or_create_keyspace under tokio current_thread and multi_thread runtimes) vs dcdriver (Datacake.Group machine)']
 THEOREM_NOTE = 'Datacake.Group.step (Model/Group.lean); theorems one_state, same_instance'
@@ -20,12 +20,27 @@ def generate(rng, tier):
             for maxdelay in (0, 1, 3):
                 lines.append('race %d %d %d %d' % (k, rng.below(1 << 30), maxdelay, rng.choice([0, 0, 2, 8])))
         lines.append('end'); cases.append(lines); idx += 1
+    # start-up: a peer's replicated write arrives while the store extension of a restarting REAL node is still loading its
+    # persisted keyspaces (after the metadata scan, before the state is installed)
+    for _ in range(dict(quick=2, thorough=20, search=3)[tier]):
+        cases.append(['case %d group' % idx, 'startup-race', 'end']); idx += 1
     return cases
+
+
+def canon(line, out):
+    if line == 'startup-race' and out.startswith('startup ack='):
+        d = dict(x.split('=') for x in out.split()[1:])
+        return 'startup safe' if (d['ack'] == 'false' or d['visible'] == 'true') else 'startup UNSAFE ' + out
+    if line == 'startup-race' and out.startswith(('startup not-started', 'startup store-failed')):
+        return 'startup safe'      # the node did not come up: inconclusive
+    return out
 
 
 def oracle(case, impl):
     bad = []
     for line, out in zip(case, impl):
+        if line == 'startup-race' and canon(line, out) != 'startup safe':
+            bad.append('a write acknowledged while the store was loading its persisted keyspaces is missing from the state peers obtain: the keyspace had two states (%s)' % out)
         if not line.startswith('race'): continue
         if not out.startswith('acked'):
             bad.append('%s: %s' % (line, out)); continue
